@@ -45,7 +45,7 @@ Op(e) ==
       [] e.a = "update_pub"  -> UpdatePub(e.p) /\ out'.r = e.r
       [] e.a = "send"        -> Send(e.p, e.id) /\ out'.r = e.r /\ out'.n = e.n /\ out'.blk = e.blk
       [] e.a = "send_begin"  -> SendBegin(e.p, e.id)
-      [] e.a = "bp"          -> BpCall(e.s) /\ out'.k = e.k
+      [] e.a = "bp"          -> BpCall(e.s) /\ out'.ri = e.ri
       [] e.a = "bp_ret"      -> BpRet(e.act)
       [] e.a = "send_end"    -> SendEnd /\ out'.p = e.p /\ out'.id = e.id /\ out'.r = e.r /\ out'.n = e.n
                                 /\ out'.blk = e.blk
